@@ -820,6 +820,21 @@ func selfCalls(fn *ssa.Function) []*ssa.Call {
 // the variable is a local of the calling function, or a captured local of an enclosing one; its possible values are
 // the function literals stored into it.
 func closureCallees(ci ssa.CallInstruction) []*ssa.Function {
+	// io.WriteString(w, s) calls w.WriteString(s) when w has that method: with a concrete w this is a static edge
+	if cal := ci.Common().StaticCallee(); cal != nil && pa.CalleeName(cal) == "io.WriteString" && len(ci.Common().Args) == 2 {
+		if mi, ok := ci.Common().Args[0].(*ssa.MakeInterface); ok {
+			prog := cal.Prog
+			ms := prog.MethodSets.MethodSet(mi.X.Type())
+			for i := 0; i < ms.Len(); i++ {
+				if ms.At(i).Obj().Name() == "WriteString" {
+					if f := prog.MethodValue(ms.At(i)); f != nil {
+						return []*ssa.Function{f}
+					}
+				}
+			}
+		}
+		return nil
+	}
 	if ci.Common().IsInvoke() || ci.Common().StaticCallee() != nil {
 		return nil
 	}
